@@ -1,0 +1,158 @@
+//! Read-only observation hooks used by external verification tooling.
+//!
+//! Compiled only with the `verif-hooks` cargo feature (off by default). Nothing in this module
+//! mutates the collector state: every function only reads counters, marks and list links, and the
+//! observer is only *called* by the allocation helpers.
+
+use alloc::vec::Vec;
+use core::cell::Cell;
+
+use crate::{Cc, Trace, POSSIBLE_CYCLES};
+use crate::cc::CcBox;
+use crate::state::try_state;
+use crate::utils::rust_cc_thread_local;
+
+/// Kind of allocation event reported to the observer.
+#[derive(Copy, Clone, Debug, PartialEq, Eq)]
+pub enum ObsKind {
+    /// A managed object box has just been allocated.
+    BoxAlloc,
+    /// A managed object box is about to be deallocated.
+    BoxDealloc,
+    /// A side allocation (weak pointers metadata) has just been allocated.
+    OtherAlloc,
+    /// A side allocation (weak pointers metadata) is about to be deallocated.
+    OtherDealloc,
+}
+
+/// Observer signature: `(kind, address, size, align)`.
+pub type Observer = fn(ObsKind, usize, usize, usize);
+
+rust_cc_thread_local! {
+    static OBSERVER: Cell<Option<Observer>> = const { Cell::new(None) };
+}
+
+/// Sets (or removes) the allocation observer of the current thread.
+pub fn set_box_observer(observer: Option<Observer>) {
+    let _ = OBSERVER.try_with(|o| o.set(observer));
+}
+
+#[inline]
+pub(crate) fn observe(kind: ObsKind, addr: usize, size: usize, align: usize) {
+    if let Ok(Some(f)) = OBSERVER.try_with(|o| o.get()) {
+        f(kind, addr, size, align);
+    }
+}
+
+/// Snapshot of the hidden per-object state.
+#[derive(Copy, Clone, Debug, PartialEq, Eq, Hash)]
+pub struct ObjectSnapshot {
+    /// Strong reference counter.
+    pub counter: u16,
+    /// Tracing counter (raw 14 bits, all ones when dropped).
+    pub tracing_counter: u16,
+    /// Mark: 0 = non marked, 1 = in possible cycles, 2 = in list, 3 = in queue.
+    pub mark: u8,
+    /// Finalized flag.
+    pub finalized: bool,
+    /// Whether the weak metadata has been allocated.
+    pub has_side_record: bool,
+    /// Whether the value is flagged as dropped.
+    pub dropped: bool,
+}
+
+fn snapshot_of(cc_box: &CcBox<()>) -> ObjectSnapshot {
+    let (tracing_raw, counter_raw) = cc_box.counter_marker().verif_raw();
+    ObjectSnapshot {
+        counter: counter_raw & 0x3FFF,
+        tracing_counter: tracing_raw & 0x3FFF,
+        mark: (tracing_raw >> 14) as u8,
+        finalized: (counter_raw & (1 << 14)) != 0,
+        has_side_record: (counter_raw & (1 << 15)) != 0,
+        dropped: (tracing_raw & 0x3FFF) == 0x3FFF,
+    }
+}
+
+/// Reads the hidden state of the allocation pointed by `cc`.
+pub fn object_snapshot<T: ?Sized + Trace>(cc: &Cc<T>) -> ObjectSnapshot {
+    snapshot_of(unsafe { cc.verif_inner_ptr().cast::<CcBox<()>>().as_ref() })
+}
+
+/// Address of the allocation pointed by `cc`.
+pub fn box_addr<T: ?Sized + Trace>(cc: &Cc<T>) -> usize {
+    cc.verif_inner_ptr().cast::<()>().as_ptr() as usize
+}
+
+/// Address of the allocation a [`Weak`][`crate::weak::Weak`] points to (may be dangling) and of its side record (0 if none).
+#[cfg(feature = "weak-ptrs")]
+pub fn weak_addrs<T: ?Sized + Trace>(weak: &crate::weak::Weak<T>) -> (usize, usize) {
+    weak.verif_addrs()
+}
+
+/// An element of the buffer of possible cycle roots.
+#[derive(Copy, Clone, Debug, PartialEq, Eq, Hash)]
+pub struct BufferNode {
+    /// Address of the allocation.
+    pub addr: usize,
+    /// Hidden state of the allocation.
+    pub snapshot: ObjectSnapshot,
+    /// Whether the `prev` link of this node points to the node visited before it.
+    pub prev_ok: bool,
+}
+
+/// Result of walking the buffer of possible cycle roots.
+#[derive(Clone, Debug)]
+pub struct BufferWalk {
+    /// The cached size (what `buffered_objects_count()` returns).
+    pub cached_size: usize,
+    /// The nodes, in list order.
+    pub nodes: Vec<BufferNode>,
+    /// True if the walk was stopped because it exceeded `limit` nodes (probably a loop in the list).
+    pub truncated: bool,
+}
+
+/// Walks the buffer of possible cycle roots (read-only), visiting at most `limit` nodes.
+pub fn buffer_walk(limit: usize) -> Option<BufferWalk> {
+    POSSIBLE_CYCLES.try_with(|pc| {
+        let mut nodes = Vec::new();
+        let mut truncated = false;
+        let mut prev: Option<core::ptr::NonNull<CcBox<()>>> = None;
+        let mut current = pc.first();
+        while let Some(ptr) = current {
+            if nodes.len() >= limit {
+                truncated = true;
+                break;
+            }
+            let cc_box = unsafe { ptr.as_ref() };
+            nodes.push(BufferNode {
+                addr: ptr.as_ptr() as usize,
+                snapshot: snapshot_of(cc_box),
+                prev_ok: unsafe { *cc_box.verif_prev() } == prev,
+            });
+            prev = Some(ptr);
+            current = unsafe { *cc_box.verif_next() };
+        }
+        BufferWalk {
+            cached_size: pc.size(),
+            nodes,
+            truncated,
+        }
+    }).ok()
+}
+
+/// The current bytes threshold used to automatically start collections.
+#[cfg(feature = "auto-collect")]
+pub fn bytes_threshold() -> Option<usize> {
+    crate::config::config(|config| config.verif_bytes_threshold()).ok()
+}
+
+/// The `(collecting, finalizing, dropping)` flags of the collector.
+pub fn state_flags() -> Option<(bool, bool, bool)> {
+    try_state(|state| {
+        #[cfg(feature = "finalization")]
+        let finalizing = state.is_finalizing();
+        #[cfg(not(feature = "finalization"))]
+        let finalizing = false;
+        (state.is_collecting(), finalizing, state.is_dropping())
+    }).ok()
+}
